@@ -138,7 +138,8 @@ def _record(gfapy, t, gfa, o, error):
         obs = project.observe(gfa, pool, _universe(gfa))
     finally:
         vt.callback = cb
-    t["ev"].append({"op": {"k": o["k"], "l": lidx, "id": o["id"], "id2": o["id2"], "ls": ls},
+    t["ev"].append({"op": {"k": o["k"], "l": lidx, "id": o["id"], "id2": o["id2"], "ls": ls,
+                           "n": core.name_class(o["id2"]) if o["k"] == "ren" else 0},
                     "res": res, "exc": exc, "obs": obs, "qsame": 1, "qdiff": []})
     t["src"].append({k: v for k, v in o.items()})
 
